@@ -1122,6 +1122,65 @@ def qa_compare(e1, e2, max_points=300000, depth=0):
                       "atoms": {v: show(it.exprs[v]) for v in it.exprs}})
 
 
+def compile_int(e):
+    """Python source of an integer-valued closed form over integer symbols (None when the form leaves the fragment
+    + - * // % max min comparisons and/or/not cond).  Floor division and modulo have Python's (= the IR's) semantics."""
+    names = {}
+
+    def var(n):
+        if n not in names:
+            names[n] = "v%d" % len(names)
+        return names[n]
+
+    def go(x):
+        op = x.op
+        if op == "const":
+            v = x.value
+            if isinstance(v, bool):
+                return "True" if v else "False"
+            if isinstance(v, Fraction) and v.denominator == 1:
+                return "(%d)" % v.numerator
+            if v is None:
+                return "None"
+            raise ValueError
+        if op == "sym":
+            return var(x.args[0])
+        if op == "add":
+            return "(%s + %s)" % (go(x.args[0]), go(x.args[1]))
+        if op == "neg":
+            return "(-%s)" % go(x.args[0])
+        if op == "mul":
+            return "(%s * %s)" % (go(x.args[0]), go(x.args[1]))
+        if op == "floordiv":
+            return "(%s // %s)" % (go(x.args[0]), go(x.args[1]))
+        if op == "mod":
+            return "(%s %% %s)" % (go(x.args[0]), go(x.args[1]))
+        if op in ("max", "min"):
+            return "%s(%s)" % (op, ", ".join(go(a) for a in x.args))
+        if op == "cmp" and x.args[0] in ("<", "<=", ">", ">=", "==", "!="):
+            return "(%s %s %s)" % (go(x.args[1]), x.args[0], go(x.args[2]))
+        if op == "not":
+            return "(not %s)" % go(x.args[0])
+        if op == "bool":
+            return "bool(%s)" % go(x.args[0])
+        if op in ("and", "or"):
+            return "(" + (" %s " % op).join(go(a) for a in x.args) + ")"
+        if op == "cond":
+            return "(%s if %s else %s)" % (go(x.args[1]), go(x.args[0]), go(x.args[2]))
+        raise ValueError
+
+    try:
+        src = go(e)
+    except (ValueError, RecursionError):
+        return None
+    order = sorted(names, key=lambda n: names[n])
+    try:
+        fn = eval("lambda %s: %s" % (", ".join(names[n] for n in order), src), {"max": max, "min": min, "bool": bool})
+    except SyntaxError:
+        return None
+    return fn, order
+
+
 def compare_on_grid(e1, e2, domain, constraint=None, limit=400000):
     """Exhaustive comparison of two closed forms on a finite grid (every point of the product of ``domain`` that satisfies
     ``constraint``).  Returns {'verdict': 'differ', witness...}, {'verdict': 'equal-on-grid', 'points': n} or
@@ -1133,9 +1192,23 @@ def compare_on_grid(e1, e2, domain, constraint=None, limit=400000):
     if total > limit:
         return {"verdict": "unknown", "reason": "grid too large (%d points)" % total}
     pts = 0
+    c1, c2 = compile_int(e1), compile_int(e2)
+    integral = all(isinstance(v, Fraction) and v.denominator == 1 for n in names for v in domain[n])
+    fast = c1 is not None and c2 is not None and integral and set(c1[1]) <= set(names) and set(c2[1]) <= set(names)
     for point in itertools.product(*[domain[n] for n in names]):
         env = dict(zip(names, point))
         if constraint is not None and not constraint(env):
+            continue
+        if fast:
+            try:
+                a = c1[0](*[int(env[n]) for n in c1[1]])
+                b = c2[0](*[int(env[n]) for n in c2[1]])
+            except ZeroDivisionError:
+                continue
+            pts += 1
+            if a != b or (isinstance(a, bool) != isinstance(b, bool) and int(a) != int(b)):
+                return {"verdict": "differ", "witness": {k: _show_val(v) for k, v in env.items()}, "values": (str(int(a)), str(int(b))),
+                        "how": "exact integer evaluation on the grid"}
             continue
         try:
             v1 = evaluate(e1, env)
